@@ -15,7 +15,8 @@ from harness import lib_valueprop as L
 
 NUM = ["i64", "i32", "f32", "f64"]
 _NP = {"i64": np.int64, "i32": np.int32, "f32": np.float32, "f64": np.float64, "bool": np.bool_,
-       "str": np.str_}
+       "str": np.str_, "f16": np.float16, "u8": np.uint8, "i8": np.int8, "i16": np.int16, "u16": np.uint16,
+       "u32": np.uint32, "u64": np.uint64}
 
 
 # ---------------------------------------------------------------------------------- generation
@@ -40,7 +41,7 @@ def _data(rng, dt, shape):
     return vals
 
 
-def gen_program(rng, size: int = 10, with_args: bool = True, control_flow: bool = True) -> list:
+def gen_program(rng, size: int = 10, with_args: bool = True, control_flow: bool = True, random_ops: bool = False) -> list:
     steps: list = []
     vs: list = []  # _V per var
 
@@ -108,8 +109,17 @@ def gen_program(rng, size: int = 10, with_args: bool = True, control_flow: bool 
             "arg_default", "arg_default", "seq_pair", "opt_pair",
             "inline0", "inline0", "intdiv", "intdiv", "intdiv_shape", "intdiv_shape",
             "intros", "intros", "unsafe", "inline_const", "inline_const",
-            "loop_perm", "loop_perm", "bigconst", "bigconst",
+            "loop_perm", "loop_perm", "bigconst", "bigconst", "inline_mix", "inline_mix", "inline_mix",
         ])
+        if random_ops and rng.random() < 0.15:
+            # a NON-DETERMINISTIC operator on a constant (history correspondence: the model's "skips propagation"
+            # flag covers subgraph-carrying and non-deterministic nodes alike); its result is no constant
+            i = pick(lambda v: is_t(v) and v.dt in ("f32", "f64") and v.const)
+            if i is not None:
+                fn = rng.choice(["random_uniform_like", "random_normal_like", "bernoulli"])
+                emit({"op": "mlop", "name": fn, "mod": "v17", "fn": fn, "args": [i], "in_dt": "const", "kwargs": {}, "np_kwargs": [], "variadic": False, "nout": 1},
+                     _V("tensor", vs[i].dt, vs[i].shape, False))
+                continue
         if choice == "const":
             new_const()
         elif choice == "attr_const":
@@ -341,6 +351,24 @@ def gen_program(rng, size: int = 10, with_args: bool = True, control_flow: bool 
                              *[_V("tensor", "i64", [2], False) for _ in range(k)])
                 data = new_const(rng.choice(["f32", "i64"]), [12], "value")
                 emit({"op": "reshape", "args": [data, first + rng.randrange(k)]}, _V("opaque", None, None, False))
+        elif choice == "inline_mix":
+            # an inlined model called with a MIX of constant and non-constant arguments (every combination), with /
+            # without control flow whose bodies capture values derived from the non-constant argument
+            kind = rng.choice(MIX_KINDS)
+            if kind != "plain" and not control_flow and False:
+                kind = "plain"
+            def operand(want_const):
+                if want_const or not with_args:
+                    return new_const("i64", [2], rng.choice(["value", "init"]))
+                return new_arg("i64", [2])
+            combo = rng.choice([(True, False), (True, False), (False, True), (True, True), (False, False)])
+            c, x = operand(combo[0]), operand(combo[1])
+            allc = vs[c].const and vs[x].const
+            nout = 3 if kind == "plain" else 2
+            outs = [_V("tensor", "i64", [2], allc) for _ in range(2)] + ([_V("tensor", "i64", [1], True)] if kind == "plain" else [])
+            first = emit({"op": "inline_mix", "kind": kind, "args": [c, x], "how": rng.choice(["kw", "mixed"])}, *outs[:nout])
+            # what comes out is used: as a Reshape target and once more
+            emit({"op": "identity", "args": [first + 1]}, _V("tensor", "i64", [2], allc))
         elif choice == "bigconst":
             # size classes around the 1024-element boundary x byte orders x Constant / initializer
             n = rng.choice([1023, 1024, 1025, 5000])
@@ -463,6 +491,54 @@ def _inline_model():
 
 _PASSTHROUGH: dict = {}
 _CONSTMODEL: dict = {}
+_MIXMODEL: dict = {}
+
+MIX_KINDS = ["plain", "if_capture", "loop_capture", "if_const_only"]
+
+
+def mix_model(kind: str):
+    """g(c, x) over int64[2] with several outputs of different dependence (hand-written ModelProto, opset 17):
+      plain        : y1 = c + c            y2 = c * x              y3 = Shape(x)
+      if_capture   : y1 = c + c            y2 = If(sum(c) > 0) then (x + c, computed OUTSIDE the body and captured) else c
+      loop_capture : y1 = c + c            y2 = Loop(trip = 2, v0 = c) { v = v + x  (x captured) }
+      if_const_only: y1 = c + c            y2 = If(sum(c) > 0) then c + c else c   (control flow over constants only)
+    A value for y2 (y3 excepted: the shape is static) can only be right if x is a constant too."""
+    import onnx
+    import onnx.helper as oh
+
+    if kind in _MIXMODEL:
+        return _MIXMODEL[kind]
+    I64 = onnx.TensorProto.INT64
+    vi = lambda n, shape=(2,), t=I64: oh.make_tensor_value_info(n, t, list(shape))  # noqa: E731
+    nodes = [oh.make_node("Add", ["c", "c"], ["y1"])]
+    outs = [vi("y1")]
+    if kind == "plain":
+        nodes += [oh.make_node("Mul", ["c", "x"], ["y2"]), oh.make_node("Shape", ["x"], ["y3"])]
+        outs += [vi("y2"), vi("y3", (1,))]
+    elif kind in ("if_capture", "if_const_only"):
+        nodes += [oh.make_node("ReduceSum", ["c"], ["s"], keepdims=0),
+                  oh.make_node("Constant", [], ["zero"], value=oh.make_tensor("zero", I64, [], [0])),
+                  oh.make_node("Greater", ["s", "zero"], ["cond"]),
+                  oh.make_node("Add", ["x", "c"] if kind == "if_capture" else ["c", "c"], ["t"])]
+        then_g = oh.make_graph([oh.make_node("Identity", ["t"], ["then_out"])], "then", [], [vi("then_out")])
+        else_g = oh.make_graph([oh.make_node("Identity", ["c"], ["else_out"])], "else", [], [vi("else_out")])
+        nodes.append(oh.make_node("If", ["cond"], ["y2"], then_branch=then_g, else_branch=else_g))
+        outs.append(vi("y2"))
+    elif kind == "loop_capture":
+        body = oh.make_graph([oh.make_node("Add", ["v", "x"], ["v_out"]), oh.make_node("Identity", ["cond_in"], ["cond_out"])], "body",
+                             [vi("i", ()), vi("cond_in", (), onnx.TensorProto.BOOL), vi("v")],
+                             [vi("cond_out", (), onnx.TensorProto.BOOL), vi("v_out")])
+        nodes += [oh.make_node("Constant", [], ["trip"], value=oh.make_tensor("trip", I64, [], [2])),
+                  oh.make_node("Constant", [], ["true"], value=oh.make_tensor("true", onnx.TensorProto.BOOL, [], [True])),
+                  oh.make_node("Loop", ["trip", "true", "c"], ["y2"], body=body)]
+        outs.append(vi("y2"))
+    else:
+        raise ValueError(kind)
+    g = oh.make_graph(nodes, "mix_" + kind, [vi("c"), vi("x")], outs)
+    m = oh.make_model(g, opset_imports=[oh.make_operatorsetid("", 17)], ir_version=8)
+    onnx.checker.check_model(m, full_check=True)
+    _MIXMODEL[kind] = m
+    return m
 
 
 def _constant_model(data: tuple):
@@ -585,6 +661,39 @@ def apply_step(step: dict, vars_: list) -> list:
         from spox._internal_op import unsafe_cast
 
         return [unsafe_cast(a[0], Tensor(_NP[step["dt"]], tuple(step["shape"])))]
+    if o == "inline_legacy":
+        from harness import lib_vplegacy as LG
+
+        m = LG.legacy_model(step["spec"])
+        if step.get("how") == "kw":
+            r = inline(m)(**{i.name: v for i, v in zip(m.graph.input, a)})
+        else:
+            r = inline(m)(*a)
+        return list(r.values())
+    if o == "identity_m":
+        import importlib
+
+        return [importlib.import_module("spox.opset.ai.onnx." + step["mod"]).identity(a[0])]
+    if o == "mlop":
+        from harness import lib_vpdtype as DT
+
+        return DT.apply_mlop(step, a)
+    if o == "inline_mix":
+        m = mix_model(step["kind"])
+        r = inline(m)(a[0], x=a[1]) if step.get("how") == "mixed" else inline(m)(c=a[0], x=a[1])
+        return list(r.values())
+    if o == "loop_break":
+        # Loop with a CONSTANT trip count M, cond omitted / constant true, whose body turns the condition off
+        # after `k` iterations: the scan output has k + 1 (< M) rows, whatever M promises
+        kconst = op.constant(value=np.array(step["k"], dtype=np.int64))
+        cond = None if step["cond"] == "omitted" else op.constant(value=np.array(True))
+        data = a[1] if len(a) > 1 else None
+
+        def body(i, _c, *vs):
+            elem = op.add(i, i) if data is None else op.mul(data, op.cast(i, to=np.float32))
+            return [op.less(i, kconst)] + list(vs) + [elem]
+
+        return list(op.loop(a[0], cond, v_initial=[], body=body))
     if o == "inline_const":
         return list(inline(_constant_model(tuple(step["data"])))().values())
     if o == "inline0":
@@ -693,7 +802,7 @@ def nul_class(prop, runtime) -> Optional[str]:
     return None
 
 
-def values_equal(a, b, rtol=1e-6) -> Optional[str]:
+def values_equal(a, b, rtol=1e-6, atol=1e-7) -> Optional[str]:
     """Compare a propagated value (ORT format) with a runtime result; None if equal."""
     if a is None or b is None:
         return None if a is None and b is None else f"none-vs-{type(b).__name__ if a is None else type(a).__name__}"
@@ -703,7 +812,7 @@ def values_equal(a, b, rtol=1e-6) -> Optional[str]:
         if len(a) != len(b):
             return f"len:{len(a)}-vs-{len(b)}"
         for x, y in zip(a, b):
-            why = values_equal(x, y, rtol)
+            why = values_equal(x, y, rtol, atol)
             if why:
                 return "elem-" + why
         return None
@@ -717,14 +826,46 @@ def values_equal(a, b, rtol=1e-6) -> Optional[str]:
     if a.dtype != b.dtype:
         return f"dtype:{a.dtype}-vs-{b.dtype}"
     if ka in "fc":
-        ok = np.allclose(a, b, rtol=rtol, atol=1e-7, equal_nan=True)
+        if a.dtype == np.float16:  # one float16 ulp is 1e-3 relative
+            rtol = max(rtol, 4e-3)
+            atol = min(atol, -1e-3) if atol < 0 else max(atol, 1e-3)
+        if atol < 0:  # negative: scale by the magnitude of the runtime array
+            fin = np.abs(b[np.isfinite(b)]) if b.size else b
+            atol = -atol * max(1.0, float(fin.max()) if fin.size else 1.0)
+        ok = np.allclose(a, b, rtol=rtol, atol=atol, equal_nan=True)
         return None if ok else "floats-differ"
     return None if np.array_equal(a, b) else "values-differ"
 
 
 # ------------------------------------------------------------------------------ oracles (model-free)
 
-_ONNX_NP = {1: np.float32, 6: np.int32, 7: np.int64, 11: np.float64, 9: np.bool_}
+_ONNX_NP = {1: np.float32, 6: np.int32, 7: np.int64, 11: np.float64, 9: np.bool_, 10: np.float16, 2: np.uint8,
+            3: np.int8, 5: np.int16, 4: np.uint16, 12: np.uint32, 13: np.uint64}
+
+
+def opn_of(steps: list, k: int, sel: str = "") -> str:
+    """Operator label of step k used in failure keys. Inlined legacy models are labelled by the operator
+    they exercise, the imported-version band and the operators after them as their downstream."""
+    st = steps[k]
+    if st["op"] == "inline_legacy":
+        from harness import lib_vplegacy as LG
+
+        ver = st["spec"]["ver"]
+        band = "lt13" if ver < 13 else ("13to17" if ver < 18 else "ge18")
+        return f"legacy-{LG.main_op(st['spec'])}-{band}@{sel}"
+    if st["op"] == "mlop":
+        return f"{st['name']}-{st.get('in_dt', '')}@{sel}"
+    if st["op"] not in ("const", "arg", "arg_default"):
+        for j in range(k - 1, -1, -1):
+            if steps[j]["op"] == "inline_legacy":
+                return opn_of(steps, j, sel) + "-downstream"
+            if steps[j]["op"] == "mlop":
+                return opn_of(steps, j, sel) + "-downstream"
+    return st["op"]
+
+
+def _short(x, n: int = 70) -> str:
+    return " ".join(str(x).split())[:n]
 
 
 def _is_arg(v) -> bool:
@@ -769,6 +910,95 @@ def type_key(t) -> str:
     return "tensor"
 
 
+# operator-level float32 rounding (exp / pow / accumulation order, cancellation in DFT / normalisations):
+# 2e-5 relative, absolute part scaled by the magnitude of the array
+LEGACY_TOL = {"rtol": 2e-5, "atol": -2e-6}
+
+
+def legacy_as_written(step: dict) -> dict:
+    """The inlined legacy model AS WRITTEN run by both third-party evaluators on the spec's constants
+    (model-free evidence used only to *name* a third-party family, never to pass a difference)."""
+    from harness import lib_vplegacy as LG
+
+    spec = step["spec"]
+    model = LG.legacy_model(spec)
+    feed = {i["name"]: LG.arr_of(i) for i in spec["inputs"]}
+    out = {"ort": None, "ref": None}
+    try:
+        out["ort"] = ort_run(model, feed)
+    except Exception:  # noqa: BLE001
+        pass
+    try:
+        import onnx.reference
+
+        out["ref"] = onnx.reference.ReferenceEvaluator(model).run(None, feed)
+    except Exception:  # noqa: BLE001
+        pass
+    return out
+
+
+def legacy_family(step: dict, k: int, prop, built, sel: str, cache: dict) -> Optional[str]:
+    """Why does the propagated value of output k of an inlined legacy model differ from the built model?
+    -> 'inline-converter' (onnx.version_converter's output computes something else than the model as
+    written does under onnxruntime, and the propagated value IS what the model as written computes under
+    the selected backend), 'inline-reference-vs-ort' (the two evaluators disagree on the model as written
+    and the propagated value is the selected evaluator's), or None (not explained by third parties)."""
+    if "w" not in cache:
+        cache["w"] = legacy_as_written(step)
+    w = cache["w"]
+    O = None if w["ort"] is None else w["ort"][k]
+    R = None if w["ref"] is None else w["ref"][k]
+    mine = O if sel == "onnxruntime" else R
+    if mine is None or values_equal(prop, _like(mine, prop), **LEGACY_TOL) is not None:
+        return None  # the propagated value is not what the selected evaluator computes for the model as written
+    if O is not None and values_equal(_like(O, built), built, **LEGACY_TOL) is not None:
+        return "inline-converter"
+    if sel == "reference" and O is not None and values_equal(_like(R, O), O, **LEGACY_TOL) is not None:
+        return "inline-reference-vs-ort"
+    if sel == "reference" and O is None:
+        # onnxruntime cannot run the model as written (Add-6 `axis`, Gemm-6 ...): the propagated value is
+        # onnx.reference's, the built model is the converter's reading - nobody else to ask
+        return "inline-reference-vs-converter"
+    return None
+
+
+def _like(x, y):
+    """x in the representation of y (object string arrays -> str)."""
+    x = np.asarray(x)
+    if x.dtype.kind == "O":
+        x = x.astype(str)
+    return x
+
+
+def _semantic_only(steps: list, step_of_var: list, i: int) -> bool:
+    k = step_of_var[i]
+    if steps[k]["op"] == "inline_mix":
+        return True
+    return steps[k]["op"] == "identity" and steps[step_of_var[steps[k]["args"][0]]]["op"] == "inline_mix"
+
+
+def _where_truncated(steps: list, prop, runtime) -> bool:
+    """A difference explained by Where on string tensors of different widths upstream: every propagated string
+    (or split piece / length derived from one) stems from a runtime string cut short. Only claimed when the program
+    has a Where over string operands and the propagated strings are proper prefixes of the runtime ones."""
+    has_where = any(st["op"] == "where" and any(steps[a]["op"] == "const" and steps[a].get("dt") == "str" or steps[a]["op"] == "mlop" or steps[a]["op"] in ("gather", "concat", "identity", "where", "cast")
+                                                  for a in st["args"][1:]) for st in steps)
+    if not has_where:
+        return False
+    try:
+        a, b = np.asarray(prop), np.asarray(runtime)
+        if a.dtype.kind in "UO" and b.dtype.kind in "UO":
+            if a.shape == b.shape:
+                xs, ys = [str(x) for x in a.reshape(-1)], [str(y) for y in b.reshape(-1)]
+                return xs != ys and all(y.startswith(x) for x, y in zip(xs, ys))
+            return a.ndim == b.ndim == 2 and a.shape[0] == b.shape[0] and a.shape[1] < b.shape[1]  # StringSplit of a cut string: fewer pieces
+        if a.dtype.kind == "i" and b.dtype.kind == "i" and a.shape == b.shape:  # StringSplit's piece counts
+            return any(st["op"] == "mlop" and st.get("name") == "StringSplit" for st in steps) and bool(np.all(a <= b)) and bool(np.any(a < b))
+    except Exception:  # noqa: BLE001
+        return False
+    return False
+
+
 def c07_check_program(steps: list, sel: str, seed: int) -> dict:
     """C07 on one program under one backend. Returns {"failures": [(key, what)], "stats": {...}}."""
     import spox
@@ -777,6 +1007,14 @@ def c07_check_program(steps: list, sel: str, seed: int) -> dict:
     stats = {"valued": 0, "compared": 0, "derived_types": 0, "multi": 0}
     r = run_program(steps, sel)
     infra = None
+    if r["raised"] and sel != "none":
+        # value propagation only adds information: a program that constructs with propagation off must construct
+        # under every backend (a propagated value of the wrong representation makes the NEXT constructor choke)
+        off = run_program(steps, "none")
+        if not off["raised"]:
+            k_r, cls, msg = r["raised"]
+            fails.append((f"construct-raises:{steps[k_r]['op'] if steps[k_r]['op'] != 'mlop' else steps[k_r]['name']}:{cls}",
+                          f"[{sel}] step {k_r} {json_short(steps[k_r])} raised {cls} ({msg[:90]}) but constructs with propagation off"))
     if r["raised"]:
         # judge the Vars constructed before the raising step all the same (a wrong propagated constant
         # typically shows up *before* the operator that chokes on it)
@@ -784,15 +1022,20 @@ def c07_check_program(steps: list, sel: str, seed: int) -> dict:
     vars_ = r["vars"]
     valued = [(i, v) for i, v in enumerate(vars_) if L.has_value(v)]
     stats["valued"] = len(valued)
-    stats["control_flow_valued"] = sum(1 for i, _ in valued if steps[r["step_of_var"][i]]["op"] in ("if", "loop_perm"))
+    stats["control_flow_valued"] = sum(1 for i, _ in valued if steps[r["step_of_var"][i]]["op"] in ("if", "loop_perm", "loop_break"))
     for i, v in valued:
-        opn = steps[r["step_of_var"][i]]["op"]
+        opn = opn_of(steps, r["step_of_var"][i], sel)
         why = L.conforms_var(v)
         if why:
             fails.append((f"value-not-of-type:{opn}:{type_key(v.type)}", f"var {i} of {opn}: {why}; type {v.type}"))
         try:
             dep = has_argument_in_cone(v)
         except Exception:  # noqa: BLE001 - graph walk not observable: the execution comparison still runs
+            dep = False
+        if dep and _semantic_only(steps, r["step_of_var"], i):
+            # an output of an inlined model called with a MIX of constant and non-constant arguments may be a
+            # function of the constants alone: structural dependence is no failure of the statement there -
+            # the comparison with the runtime under several bindings of the inputs below is what judges it
             dep = False
         if dep:
             fails.append((f"input-dependent:{opn}", f"var {i} of {opn} carries a value but depends on an argument"))
@@ -804,13 +1047,16 @@ def c07_check_program(steps: list, sel: str, seed: int) -> dict:
         model = spox.build(args, {f"v{i}": v for i, v in exposed})
     except Exception as e:  # noqa: BLE001
         return {"failures": fails, "stats": stats, "infra": f"build failed {type(e).__name__}: {str(e)[:200]}"}
-    for trial in range(2):  # two different bindings of the (unrelated) inputs
+    n_bind = 4 if any(st["op"] == "inline_mix" for st in steps) else 2
+    for trial in range(n_bind):  # different bindings of the (unrelated) inputs
         feed = random_feed(model, seed * 7 + trial)
         try:
             outs = ort_run(model, feed)
         except Exception as e:  # noqa: BLE001
             return {"failures": fails, "stats": stats, "infra": f"ort failed {type(e).__name__}: {str(e)[:200]}"}
         ref_outs: list = []  # onnx.reference on the built model, computed only if onnxruntime disagrees
+        legacy_cache: dict = {}
+        legacy_class: dict = {}
 
         def second_opinion(pos):
             """The other evaluator's result for output `pos` of the *built* model (None if unavailable)."""
@@ -824,12 +1070,42 @@ def c07_check_program(steps: list, sel: str, seed: int) -> dict:
             return None if ref_outs[0] is None else ref_outs[0][pos]
 
         for pos, ((i, v), o) in enumerate(zip(exposed, outs)):
-            opn = steps[r["step_of_var"][i]]["op"]
+            opn = opn_of(steps, r["step_of_var"][i], sel)
             if L.has_value(v):
                 stats["compared"] += 1
+                if steps[r["step_of_var"][i]]["op"] in ("inline_legacy", "mlop"):
+                    stats["focus_compared"] = stats.get("focus_compared", 0) + 1
                 if opn in ("topk", "split", "unique", "inline", "inline0", "intros"):
                     stats["multi"] += 1
-                why = values_equal(v._get_value(), o)
+                k_step = r["step_of_var"][i]
+                is_legacy = steps[k_step]["op"] == "inline_legacy"
+                down_of = next((j for j in range(k_step - 1, -1, -1) if steps[j]["op"] == "inline_legacy"), None) \
+                    if steps[k_step]["op"] not in ("const", "arg", "arg_default", "inline_legacy") else None
+                after_mlop = any(steps[j]["op"] == "mlop" for j in range(k_step + 1)) and steps[k_step]["op"] not in ("const", "arg", "arg_default")
+                tol = LEGACY_TOL if (is_legacy or down_of is not None or after_mlop) else {}
+                why = values_equal(v._get_value(), o, **tol)
+                if why and is_legacy:
+                    try:
+                        kk = int(str(v._which_output).rsplit("_", 1)[1])
+                        fam = legacy_family(steps[k_step], kk, v._get_value(), o, sel, legacy_cache.setdefault(k_step, {}))
+                    except Exception:  # noqa: BLE001
+                        fam = None
+                    if fam:
+                        legacy_class[k_step] = fam
+                        from harness import lib_vplegacy as LG
+
+                        fails.append((f"{fam}:{LG.main_op(steps[k_step]['spec'])}",
+                                      f"[{sel}] var {i} ({opn}): propagated {_short(v._get_value())} = the selected evaluator on the inlined model as written, "
+                                      f"but the built (version-converted) model computes {_short(o)}"))
+                        why = None
+                if why and down_of is not None and legacy_class.get(down_of):
+                    why = None  # consequence of the (reported) difference at the inlined model's own output
+                if why and sel == "reference" and _where_truncated(steps, v._get_value(), o):
+                    # onnx.reference's Where returns `np.where(c, x, y).astype(x.dtype)`: with fixed-width numpy strings
+                    # the elements taken from y are cut to x's width (third-party; listed family, never a silent pass)
+                    fails.append(("string:reference-where-truncates",
+                                  f"[{sel}] var {i} ({opn}): propagated {_short(v._get_value(), 60)} but the built model computes {_short(o, 60)}"))
+                    why = None
                 if why == "strings-differ":
                     fam = nul_class(v._get_value(), o)
                     if fam:  # numpy fixed-width strings / the ORT feed drop NULs: its own (listed) family
@@ -853,7 +1129,7 @@ def c07_check_program(steps: list, sel: str, seed: int) -> dict:
                 if why:
                     which = v._which_output
                     fails.append((f"value-differs:{opn}:{which}:{why.split(':')[0]}",
-                                  f"[{sel}] var {i} ({opn}->{which}) propagated {str(v._get_value())[:80]} but the built model computes {str(o)[:80]} ({why})"))
+                                  f"[{sel}] var {i} ({opn}->{which}) propagated {_short(v._get_value(), 80)} but the built model computes {_short(o, 80)} ({why})"))
             # derived types (Reshape/Expand/Slice/Tile targets ...) against the runtime value
             stats["derived_types"] += 1
             if isinstance(o, np.ndarray):
@@ -980,6 +1256,9 @@ def off_check_program(steps: list, sel: str, seed: int) -> dict:
         st, cls, msg = on["raised"]
         if steps[st]["op"] == "const":  # no backend involved: spox's own Constant / initializer propagation raised
             return {"failures": [(f"const-raises:{cls}", f"constructing {json_short(steps[st])} raised {cls}: {msg[:100]}")]}
+        if not off["raised"]:  # constructs with propagation off, fails with it on (no fault injected)
+            nm = steps[st]["name"] if steps[st]["op"] == "mlop" else steps[st]["op"]
+            return {"failures": [(f"on-raises:{nm}:{cls}", f"[{sel}] {json_short(steps[st])} raised {cls} ({msg[:90]}) with propagation on, constructs with it off")]}
         return {"failures": [], "infra": f"program raised {on['raised']}"}
     if off["raised"]:
         st, cls, msg = off["raised"]
@@ -1006,6 +1285,9 @@ def off_check_program(steps: list, sel: str, seed: int) -> dict:
         a, b = ort_run(m_on, feed), ort_run(m_off, feed)
     except Exception as e:  # noqa: BLE001
         return {"failures": fails, "infra": f"ort failed {type(e).__name__}: {str(e)[:150]}"}
+    if any(st["op"] == "mlop" and st.get("fn") in ("random_uniform", "random_normal", "random_uniform_like", "random_normal_like", "multinomial", "bernoulli")
+           or st["op"] == "mlop" and st.get("name") == "dropout_train" for st in steps):
+        return {"failures": fails}  # two runs of a sampling program differ by nature: only the emitted graphs are compared
     for i, x, y in zip(idx, a, b):
         why = values_equal(x, y)
         if why:
@@ -1032,10 +1314,30 @@ def _const_array(step):
     return np.array(list(step["data"]), dtype=np.str_).reshape(-1)
 
 
+NON_DETERMINISTIC = {"RandomUniform", "RandomNormal", "RandomUniformLike", "RandomNormalLike", "Multinomial", "Bernoulli", "Dropout"}
+
+
+def schema_non_deterministic(node) -> bool:
+    """Is the node a sampling operator of the default domain? (the harness's own list from the ONNX operator
+    documentation: `OpSchema.non_deterministic` of onnx 1.22 is also set for Range / If / Loop / *Window)"""
+    try:
+        ot = node.op_type
+        return ot.domain in ("", "ai.onnx") and ot.identifier in NON_DETERMINISTIC
+    except Exception:  # noqa: BLE001
+        return False
+
+
+def model_has_control_flow(model) -> bool:
+    """Does any node of the (top-level) graph carry a GRAPH / GRAPHS attribute? (own scan of the ModelProto)"""
+    import onnx
+
+    return any(a.type in (onnx.AttributeProto.GRAPH, onnx.AttributeProto.GRAPHS) for n in model.graph.node for a in n.attribute)
+
+
 def record_history(steps: list, sel: str, script=None, at: str = "run") -> dict:
     """Run the program and describe it as a model history (`VP.Step` list) together with the values
     the real code attached. Programs with control flow are not described (returns {"skip": ...})."""
-    if any(st["op"] in ("if", "loop_perm", "unsafe_reshape", "unsafe_cast") for st in steps):
+    if any(st["op"] in ("if", "loop_perm", "loop_break", "unsafe_reshape", "unsafe_cast") for st in steps):
         return {"skip": "control flow / unsafe_* (outside the history model)"}
     reg = L.PidRegistry()
     nonconf: list = []
@@ -1087,10 +1389,15 @@ def record_history(steps: list, sel: str, script=None, at: str = "run") -> dict:
                     else:
                         backend = {"names": [], "vals": []}
                     h = {"sel": sel, "inputs": ins, "inNames": names, "outs": outs, "backend": backend}
+                    # the three facts behind "propagate_values returns early" are observed separately, with the
+                    # harness's own means (operator list from the ONNX documentation, node.subgraphs, a scan of the
+                    # inlined ModelProto); the MODEL combines them (`Traits.skips`, `propagates`)
                     if type(node).__name__ == "_Inline":
-                        h.update({"k": "inline", "gnames": [o.name for o in node.graph.output]})
+                        h.update({"k": "inline", "gnames": [o.name for o in node.graph.output], "sampling": False, "hasSubgraph": False,
+                                  "inlineControlFlow": model_has_control_flow(node.model)})
                     else:
-                        h.update({"k": "standard", "hasSubgraph": next(iter(node.subgraphs), None) is not None})
+                        h.update({"k": "standard", "sampling": schema_non_deterministic(node), "inlineControlFlow": False,
+                                  "hasSubgraph": next(iter(node.subgraphs), None) is not None})
                     hist.append(h)
                 for j, (key, v) in enumerate(node.outputs.get_vars().items()):
                     ref_of[id(v)] = {"node": idx, "out": j}
@@ -1110,7 +1417,7 @@ def record_history(steps: list, sel: str, script=None, at: str = "run") -> dict:
 
 DERIVED_TEMPLATES = ["compress", "one_hot", "topk", "range", "constant_of_shape", "pad", "squeeze", "unsqueeze",
                      "split_sizes", "shape_gather", "non_zero_shape", "unique_size", "cumsum", "slice", "tile",
-                     "expand", "reshape", "reduce", "gather", "resize"]
+                     "expand", "reshape", "reduce", "gather", "resize", "loop_break"]
 
 
 def gen_derived_program(rng, template: Optional[str] = None) -> list:
@@ -1257,6 +1564,23 @@ def gen_derived_program(rng, template: Optional[str] = None) -> list:
         arr = np.array(idx)
         emit({"op": "gather_ax", "args": [x, C(rng.choice(["i64", "i32"]), [int(d) for d in arr.shape], [int(v) for v in arr.reshape(-1)])],
               "axis": rng.choice([0, -2])})
+    elif t == "loop_break":
+        # constant trip count M, cond omitted / constant true, the body breaks after k < M iterations; the scan
+        # output (k + 1 rows) and everything derived from its shape must be typed soundly
+        M = rng.choice([3, 4, 5, 7])
+        k = rng.randrange(0, M - 1)
+        if rng.random() < 0.2:
+            k = M + 1  # never breaks: M rows
+        trip = C("i64", [], [M], rng.choice(["value", "init"]))
+        args = [trip]
+        if rng.random() < 0.5:
+            args.append(C("f32", [2], [0.5, 1.5]))
+        sc = emit({"op": "loop_break", "args": args, "k": k, "cond": rng.choice(["omitted", "true"])})
+        sh = emit({"op": "shape", "args": [sc]})
+        if rng.random() < 0.5:
+            emit({"op": "constant_of_shape", "args": [sh], "fill": 2})
+        else:
+            emit({"op": "size", "args": [sc]})
     elif t == "resize":
         x = X("f32", [1, 1, 2, m])
         if rng.random() < 0.5:
